@@ -265,8 +265,8 @@ def _check_main(ctx, rep: Report):
                 rep.oblige("C13.FWD", f"KeyedList.{name}", ok)
                 if not ok:
                     rep.violate(Violation("C13.FWD", f"C13.FWD|{name}", f"KeyedList.{name} builds its result with `{ast.unparse(n)}` without the key function: items that need it are re-keyed or rejected", f"{mrel}:{n.lineno}", f"KeyedList.{name}"))
-    if nctor < 3:
-        raise AnalysisError(f"C13.FWD: {nctor} constructions found (floor 3)")
+    if nctor < 1:
+        raise AnalysisError(f"C13.FWD: {nctor} constructions found (floor 1)")
 
     # ---- KEY
     rep.rules["C13.KEY"] = "key views read only _dict; index_for_key scans _list by key equality"
